@@ -17,6 +17,7 @@ from ..model.c14_recogniser import (recognise, recompose, invalid_cause, VALID, 
 from ..model import c03_dpkgcmp as dpkgmodel
 from ..gen import c03_versions as gen
 
+from debian import debian_support
 from debian.debian_support import Version
 
 ID = "C14"
@@ -30,7 +31,8 @@ RULE = ("string cases: every string of length <=4 (quick) / <=5 (thorough) over 
         "upstream_version / debian_revision / debian_version / full_version with None, valid components, "
         "components with a foreign character, with ':' or '-', or empty. Non-trivial = (string) contains "
         "a character outside the version alphabet or at least two of ':'/'-'; (history) at least one "
-        "assignment was rejected by the library; distinct = distinct canonical JSON of the case")
+        "assignment was rejected by the library; long cases: components of 4299..70000 characters "
+        "(digits, letters) constructed with all three version classes and assigned; distinct = distinct canonical JSON of the case")
 ASSUMPTIONS = [
     "reference = hand-written, regex-free recogniser (model/c14_recogniser): split at the FIRST colon and "
     "the LAST hyphen; three-valued: strings whose split leaves an empty upstream or empty revision are "
@@ -293,8 +295,91 @@ def check_history(start, ops):
     return (rejected >= 1, sorted(labels))
 
 
+def _piece(x):
+    """[text, repeat] -> text * repeat (long components are written compactly in the case)."""
+    if x is None:
+        return None
+    if (isinstance(x, list) and len(x) == 2 and isinstance(x[0], str) and isinstance(x[1], int)
+            and 0 < x[1] * len(x[0]) <= 200000):
+        return x[0] * x[1]
+    raise TypeError
+
+
+def check_big(case):
+    """Long components (thousands of digits or letters: beyond any conversion or buffer limit of
+    the interpreter) are ordinary members of the version alphabet: construction, str(), the
+    split, recomposition and component assignment behave as for short ones.  Ordering and hashing
+    of such versions are not asked for here (C03's subject; digit runs beyond the interpreter's
+    int() limit cannot be ordered by this implementation on this interpreter)."""
+    try:
+        e, u, r = _piece(case.get("epoch")), _piece(case.get("upstream")), _piece(case.get("revision"))
+        asg = case.get("assign")
+        if asg is not None:
+            if asg[0] not in ATTRS[:3]:
+                raise TypeError
+            asg = (asg[0], _piece(asg[1]))
+    except (TypeError, IndexError, KeyError):
+        return (False, ("invalid-case-skipped",))
+    s = recompose(e, u, r)
+    if s is None:
+        return (False, ("invalid-case-skipped",))
+    verdict, parts = recognise(s)
+    if verdict != VALID:
+        return (False, ("invalid-case-skipped",))
+    labels = set(["kind:long-components", "longest-component:%d" % max(len(x) for x in (e, u, r) if x)])
+    for cls in (Version, debian_support.NativeVersion, debian_support.BaseVersion):
+        try:
+            v = cls(s)
+        except ValueError:
+            raise Violation("rejects-valid-version", "%s(<%d characters: %s>) raises ValueError"
+                            % (cls.__name__, len(s), short(s, 60)))
+        check_decomposition(v, s, verdict, parts, "")
+    v = Version(s)
+    if asg is not None:
+        pre = (str(v), components(v))
+        comps = list(components(v))
+        comps[ATTRS.index(asg[0])] = asg[1]
+        t = recompose(*comps)
+        vd, pp = recognise(t)
+        labels.add("assign-long:" + asg[0])
+        try:
+            setattr(v, asg[0], asg[1])
+        except ValueError:
+            if vd == VALID:
+                raise Violation("assign-rejects-valid", "%s = <%d characters: %s> on %s raised ValueError"
+                                % (asg[0], len(asg[1]), short(asg[1], 40), short(pre[0], 60)))
+            if (str(v), components(v)) != pre:
+                raise Violation("rollback-incomplete", "refused %s = <%d characters> changed the object"
+                                % (asg[0], len(asg[1])))
+            return (True, sorted(labels))
+        if vd == INVALID:
+            raise Violation("assign-accepts-invalid", "%s = <%d characters: %s> accepted"
+                            % (asg[0], len(asg[1]), short(asg[1], 40)))
+        if vd == VALID:
+            check_decomposition(v, t, vd, pp, "assign-")
+    return (True, sorted(labels))
+
+
+def big_cases():
+    sizes = [4299, 4300, 4301, 5000, 70000]
+    for n in sizes:
+        yield {"kind": "big", "epoch": ["9", n], "upstream": ["1", 1], "revision": None}
+        yield {"kind": "big", "epoch": ["10", n // 2 + 1], "upstream": ["1.0", 1], "revision": ["1", 1]}
+        yield {"kind": "big", "epoch": None, "upstream": ["7", n], "revision": None}
+        yield {"kind": "big", "epoch": ["1", 1], "upstream": ["1.", n // 2], "revision": ["3", n]}
+        yield {"kind": "big", "epoch": None, "upstream": ["a~", n // 2 + 1], "revision": ["z+", n // 2 + 1]}
+        for attr in ATTRS[:3]:
+            for piece in (["8", n], ["1a", n // 2 + 1]) + ((["-", 1], [":", 1], ["9_", n // 2 + 1]) if n == 4301 else ()):
+                yield {"kind": "big", "epoch": ["2", 1], "upstream": ["1.0", 1], "revision": ["1", 1],
+                       "assign": [attr, piece]}
+                yield {"kind": "big", "epoch": None, "upstream": ["1.0", 1], "revision": None,
+                       "assign": [attr, piece]}
+
+
 def check(case):
     kind = case.get("kind") if isinstance(case, dict) else None
+    if kind == "big":
+        return check_big(case)
     if kind == "string":
         s = case.get("s")
         if not isinstance(s, str):
@@ -484,10 +569,12 @@ def dpkg_phase_factory(n_enum, n_hyp, maxlen):
 def sources(tier):
     if tier == "quick":
         return [Enum("strings<=4", enum_strings(4), EXHAUSTIVE["quick"]),
+                Enum("long-components", big_cases, "epoch / upstream / revision of 4299..70000 characters, constructed and assigned"),
                 Hyp("mutated-versions", MUTATED_STRING, 2500, shards=4),
                 Hyp("assignment-histories", HISTORY, 1500, shards=6),
                 Custom("dpkg-validate", dpkg_phase_factory(250, 400, 6), shards=3)]
     return [Enum("strings<=5", enum_strings(5), EXHAUSTIVE["thorough"]),
+            Enum("long-components", big_cases, "epoch / upstream / revision of 4299..70000 characters, constructed and assigned"),
             Hyp("mutated-versions", MUTATED_STRING, 30000, shards=16),
             Hyp("assignment-histories", HISTORY, 12000, shards=16),
             Custom("dpkg-validate", dpkg_phase_factory(1500, 3000, 7), shards=16)]
